@@ -33,7 +33,7 @@ def run(ctx, repo):
     ctx.call(RSB.r_simple_key_limit, repo)
     ctx.call(RX.r_mark_from_position, repo)
     ctx.call(RX.r_docmarker_column0, repo)
-    ctx.call(RG.r_parser_grammar, repo, max_len=8 if ctx.tier == 'thorough' else 6)
+    ctx.call(RG.r_parser_grammar, repo, max_len=9 if ctx.tier == 'thorough' else 6)
 
     ctx.call(RX.r_token_ready, repo)
     ctx.call(RX.r_column_per_char, repo)
